@@ -7,13 +7,16 @@ and `kyber/group/mod.Int` are after the three repairs of this round) over `Model
 
 "Element" = a value of the model types with `G1.valid` / `G2.valid` / `gtValid` / `< r`:
   G1: identity, or affine (x, y) with x, y < p on y² = x³ + 3            (every such point is in G1)
+      — and every element reachable by scalar multiplication / addition / negation is one: `g1_reachable_roundtrip`
   G2: identity, or affine over Fp2 with coordinates < p, on the twist, and r•P = O
+      (that the model's G2 operations preserve this needs the group law of the twist: C10's subject, not proved here)
   GT: twelve coordinates < p (point.go performs no membership test for GT — modelled as it is)
   scalar: a number < r
 All statements are for EVERY element / EVERY byte string (no bound).
 -/
 import DosModel.Proofs.CodecChar
 import DosModel.Proofs.Bn256ConcRedc
+import DosModel.Proofs.Bn256ConcCurve
 import DosModel.Gen.CodecFacts
 
 namespace Dos.Props.C11
@@ -76,6 +79,18 @@ theorem g1_roundtrip (P : G1) (hv : G1.valid P = true) (tail : Bytes) :
 
 example : unmarshalG1 (marshalG1 g1gen ++ [7]) = .ok g1gen := g1_roundtrip g1gen (by decide) [7]
 example : unmarshalG1 (marshalG1 .inf) = .ok .inf := by simpa using g1_roundtrip .inf rfl []
+
+/-- **every G1 element reachable from the generator by scalar multiplication, addition and
+negation (identity included) is a valid element** — so all G1 theorems of this file apply to it —
+and survives encode-then-decode.  No assumption: p is prime by a kernel-checked Pratt certificate
+(`Proofs/Primes.lean`), `finv` is the field inverse by Fermat, the chord/tangent formulas of the
+model stay on y² = x³ + 3 (`Proofs/Bn256ConcCurve.lean`). -/
+theorem g1_reachable_roundtrip (P : G1) (h : G1.Reachable P) (tail : Bytes) :
+    G1.valid P = true ∧ unmarshalG1 (marshalG1 P ++ tail) = .ok P ∧ (marshalG1 P).length = 64 :=
+  ⟨reachable_valid h, unmarshalG1_marshalG1 P (reachable_valid h) tail, marshalG1_length P⟩
+
+example : G1.Reachable (G1.add (G1.smul 12345 g1gen) (G1.neg (G1.smul (r - 1) g1gen))) :=
+  .add (.smul _ .base) (.neg (.smul _ .base))
 
 /-- **G2 round trip** (identity: the one byte 0x00) -/
 theorem g2_roundtrip (P : G2) (hv : G2.valid P = true) (tail : Bytes) :
